@@ -3,7 +3,7 @@ import re
 from analysis.engine import rule, AnchorMissing
 from analysis import cfg
 from analysis.sym import sym, show_in, nosite, peel, core, walk, ret_values, args_of, guards_at, atoms_at, \
-    variant_facts_at, cmp_facts_at, init_value, edge_guards
+    variant_facts_at, cmp_facts_at, init_value, edge_guards, symbolizer, simplify
 from analysis.pat import match, Call, Cap, ANY, Pred, Const, has, chain_names
 from rules.common import closure_of, closures_in, V, the_state_local, receiver_var
 
@@ -62,6 +62,8 @@ def r1(ctx):
             # drop-flag guarded drops: executed only if the value was not moved out; accept when every path to the drop
             # that still owns the value is under is_empty -- approximated by the dominating guard above
             flag = _drop_flag_guard(b, t)
+            if not (empty or flag) and 'Option<T>' in ty:
+                flag = _none_by_contradiction(b, t)
             ctx.require(empty or flag, b, 'item-drop|' + re.sub(r'[^A-Za-z]+', '_', ty)[:30],
                         'drop of %s at line %d is of an empty/moved-out value' % (ty, t.span['line']),
                         'a value of type %s (may hold items) is dropped on a normal path at line %d: items are lost' % (ty, t.span['line']), t.span)
@@ -69,6 +71,43 @@ def r1(ctx):
     for c in closures_in(ctx, bb):
         pass
     ctx.ok(bb, 'drop inventory of build_batch, batch_from and their closures evaluated')
+
+
+def _none_by_contradiction(b, t):
+    """drop of an Option<T> local: every `Some(..)` it was ever assigned was assigned where `v.is_empty()` is known false, the
+    drop sits where the same `v.is_empty()` is known true, and nothing appends to `v` in between -- no path carries a Some to
+    the drop (the `remainder` of batch_from: set only once the batch holds an item, dropped only on the empty-batch path)"""
+    if t.place is None or t.place.proj:
+        return False
+    from analysis.sym import defs_of
+    whole, partial = defs_of(b, t.place.local)
+    if partial or not whole:
+        return False
+    z = symbolizer(b)
+    here = [(nosite(core(tt)), pol) for tt, pol, g in atoms_at(b, t.bb) if pol is not None]
+    empties_true = [c for c, pol in here if pol is True and c[0] == 'call' and c[1].endswith('::is_empty')]
+    for d in whole:
+        v = simplify(z.rvalue(d.rv, 0, ())) if hasattr(d, 'rv') else simplify(z.call(d))
+        cv = peel(v)
+        if cv[0] == 'agg' and cv[2].endswith('Option::None'):
+            continue
+        # a definition that cannot reach the drop (the loop is left right after it) is irrelevant
+        if t.bb not in cfg.reach_from_succ(b, d.bb):
+            continue
+        if not empties_true:
+            return False
+        at_def = [(nosite(core(tt)), pol) for tt, pol, g in atoms_at(b, d.bb) if pol is not None]
+        contradicted = [c for c in empties_true if (c, False) in at_def]
+        if not contradicted:
+            return False
+        # nothing grows the vector on a path from the definition to the drop
+        between = cfg.reach(b, d.bb) & {x for x in b.reachable if t.bb in cfg.reach(b, x)}
+        vec = contradicted[0][2][0]
+        for u in b.terms('call'):
+            if u.bb in between and u.bb != d.bb and u.args and re.search(r'::(push|extend|insert|append|extend_from_slice)$', u.callee_res() or '') and \
+                    nosite(core(sym(b, u.args[0]))) == nosite(core(vec)):
+                return False
+    return True
 
 
 def _drop_flag_guard(b, t):
@@ -155,11 +194,17 @@ def r3(ctx):
     ctx.require(ok, bf, 'push-within-limit', 'every path from the accounting to the push crosses `!(limit() > limit)` or `items.is_empty()`',
                 'an item can be added although the limit is exceeded and the batch is not empty', p.span)
     # the rejected item is returned as remainder on the other path
+    from analysis.alts import flatten as _flatten, expand as _expand
     rem = [(v, blk) for v, blk in ret_values(bf) if v[0] == 'agg' and len(v[3]) == 2 and not (v[3][1][0] == 'agg' and v[3][1][2].endswith('Option::None'))]
     ok = len(rem) == 1
     if ok:
-        rv = init_value(bf, rem[0][0][3][1])
-        ok = match(rv, ('agg', 'adt', Pred(lambda n: n.endswith('Option::Some')), (Pred(lambda u: nosite(core(u)) == nosite(core(item))),)))
+        somes = []
+        for a_ in _flatten(_expand(ctx.facts, bf, nosite(init_value(bf, rem[0][0][3][1])))):
+            av = peel(a_.value)
+            if av[0] == 'agg' and av[2].endswith('Option::None'):
+                continue
+            somes.append(av)
+        ok = bool(somes) and all(match(av, ('agg', 'adt', Pred(lambda n: n.endswith('Option::Some')), (Pred(lambda u: nosite(core(u)) == nosite(core(item))),))) for av in somes)
     ctx.require(ok, bf, 'remainder-is-rejected-item', 'the remainder returned is Some(the rejected item)', None)
     # BatchLimit tables
     lim = ctx.body('data::loading::BatchLimit::limit')
@@ -190,6 +235,8 @@ def r3(ctx):
         if v[0] == 'agg' and v[1] == 'adt':
             tbl[v[2].rsplit('::', 1)[-1]] = tuple(core(x) for x in v[3])
             raw[v[2].rsplit('::', 1)[-1]] = v[3]
+    if not tbl:
+        raise AnchorMissing('from_items(): the BatchLimit values it returns (not built as literals, e.g. folded through update())')
     okb = 'BatchSize' in tbl and match(tbl['BatchSize'][0], Call('len', ('arg', 1, ANY)))
     okt = 'TotalItemSize' in tbl and match(tbl['TotalItemSize'][0], Call('len', ('arg', 1, ANY)))
     red = reduce_of(ctx.facts, fi, raw['TotalItemSize'][1]) if okt else None
@@ -317,11 +364,13 @@ def r5(ctx):
         ok = ok and len(c) == 1 and match(core(sym(nx, c[0].args[i])), ('field', ('arg', 1, ANY), f))
     ctx.require(ok, nx, 'next-args', 'next() passes its own iter, buffer, rng and configuration to build_batch', None)
     srt = [t for t in bb.calls(r'sort_by_key$|sort_unstable|sort_by$|slice::sort$|sort_by_cached_key$')]
-    ok = len(srt) == 1 and (srt[0].callee_res() or '').endswith('slice::sort_by_key')
-    if ok:
-        clo = closure_of(ctx, sym(bb, srt[0].args[1]))
-        rv = ret_values(clo)
-        ok = len(rv) == 1 and match(core(rv[0][0]), Call('ItemSize::size', ('arg', 2, ANY)))
+    ok = len(srt) >= 1
+    for st_ in srt:
+        ok = ok and (st_.callee_res() or '').endswith('slice::sort_by_key')
+        if ok:
+            clo = closure_of(ctx, sym(bb, st_.args[1]))
+            rv = ret_values(clo)
+            ok = len(rv) == 1 and match(core(rv[0][0]), Call('ItemSize::size', ('arg', 2, ANY)))
     ctx.require(ok, bb, 'stable-sort', 'buffer is sorted with the stable sort_by_key(|a| a.size())', None)
 
 
@@ -332,6 +381,20 @@ def r6(ctx):
     bb, bf = _bodies(ctx)
     for v, blk in ret_values(bb):
         if not (v[0] == 'agg' and v[2].endswith('Option::Some')):
+            continue
+        from analysis.alts import flatten as _flatten, expand as _expand
+        alts_ = _flatten(_expand(ctx.facts, bb, nosite(v[3][0])))
+        if len(alts_) > 1:
+            # the batch is chosen among several values (a helper's two results): judge each alternative
+            for a_ in alts_:
+                av = init_value(bb, a_.value)
+                if has(av, Call('Vec::splice')):
+                    ctx.ok(bb, 'alternative batch: spliced sub-sequence', bb.blocks[blk].term.span)
+                elif any(isinstance(x, tuple) and x and x[0] == 'call' and x[1].endswith('into_vec') or (isinstance(x, tuple) and x and x[0] == 'call' and 'box' in x[1]) for x in walk(av)):
+                    pops = [t for t in bb.calls(r'Vec::pop$') if match(sym(bb, t.args[0]), ('arg', 2, ANY))]
+                    ctx.require(len(pops) >= 1, bb, 'fallback-pops', 'the fallback batch (no candidate range) is one item popped from the buffer', None, bb.blocks[blk].term.span)
+                else:
+                    ctx.fail(bb, 'fallback-pops', 'a returned batch is %s' % show_in(bb, av)[:100], bb.blocks[blk].term.span)
             continue
         inner = init_value(bb, v[3][0])
         if has(inner, Call('Vec::splice')):
